@@ -43,7 +43,11 @@ class TimeActiveDecorator(TriggerHandlerDecorator, AutoKwargsDecorator):
                 return False
 
         if len(self.args) > 0:
-            if "trigger_time" in data.func_args and isinstance(data.func_args["trigger_time"], dt.datetime):
+            # only a time trigger carries its own occurrence time; for other trigger types the key may
+            # come from an event's payload or from kwargs=
+            if data.func_args.get("trigger_type") == "time" and isinstance(
+                data.func_args.get("trigger_time"), dt.datetime
+            ):
                 now = data.func_args["trigger_time"]
             else:
                 now = dt_now()
